@@ -109,3 +109,30 @@ def runRetF (E : DEnv σ V) (forget : σ → σ) (sched : Nat → Nat → σ →
     | some (st', es', true, k') => runRetF E forget sched kind named fuel (forget st') es' k' false (ns + 1)
 
 end GV.RetDefer
+
+namespace GV.RetDefer
+
+/-! ### Unwinding a suspended goroutine through SEVERAL frames with pending defers
+
+  When the goroutine is asleep every frame on the call path returns its saved frame `$f` to its caller.  A frame with
+  `defer` statements leaves through `finally { $callDeferred($deferred, $err); if ($curGoroutine.asleep) { save } }`
+  (functions.go:313-330).  `$callDeferred` first checks that the frame's `$deferred` list is still on the goroutine's
+  `deferStack` (goroutines.js:12-14; if a panic already ran and popped it, the function must keep unwinding:
+  `throw jsErr`), then returns at once because the goroutine is asleep (goroutines.js:25-27): nothing is run or popped,
+  the frame is saved WITH its `$deferred` list, and the deferStack — state of the goroutine, not of a frame — is
+  unchanged.  Callees that hold pending defers of their own sit ABOVE the frame's list on the deferStack. -/
+
+/-- the guard of the real code: the list is anywhere on the deferStack (`indexOf(deferred) != -1`) -/
+def guardAnywhere (stack : List Nat) (d : Nat) : Bool := stack.contains d
+
+/-- the guard "the list is the TOP of the deferStack" (the stack is written top first) -/
+def guardTop (stack : List Nat) (d : Nat) : Bool := stack.head? == some d
+
+/-- frames on the unwinding path, innermost first; `some d` = the frame has pending defers in list `d`.
+    Result: number of frames saved, or `none` = a frame threw `jsErr` (= null) instead of saving itself. -/
+def unwind (guard : List Nat → Nat → Bool) (stack : List Nat) : List (Option Nat) → Option Nat
+  | [] => some 0
+  | none :: fs => (unwind guard stack fs).map (· + 1)
+  | some d :: fs => if guard stack d then (unwind guard stack fs).map (· + 1) else none
+
+end GV.RetDefer
